@@ -262,6 +262,8 @@ class Sym:
     def __mul__(self, o):
         if isinstance(o, _np.ndarray):
             return NotImplemented
+        if isinstance(o, SymBool):
+            return sym_ite(o, self, Sym.const(0))
         o = tosym(o)
         if o is NotImplemented:
             return o
